@@ -231,3 +231,43 @@ def s_fiber_cells(g, depth):
     if g.fdepth > 0:
         return s_shared(g, depth)
     return feat_fiber.abandoned_accessors(g)
+
+
+def s_selfname(g, depth):
+    """inside a function its own name means the variable the function was declared as: assigning to it (the run-once
+    idiom) or rebinding it while the old closure is still reachable changes what a later use of the name sees"""
+    r = g.r
+    f = g.fresh("once")
+    h = g.fresh("step")
+    local = r.chance(50)
+    L = ["var %s_runs = 0;" % f,
+         "fn %s() { %s_runs = %s_runs + 1; print(\"setting up\"); %s = || { print(\"already set up\"); return %s_runs; }; return 0; }" % (f, f, f, f, f),
+         "%s(); print(%s()); print(%s());" % (f, f, f),
+         "fn %s(n) { if n <= 0 { return \"old done\"; } return %s(n - 1); }" % (h, h),
+         "var %s_alias = %s;" % (h, h),
+         "%s = |n| \"new step(${n})\";" % h,
+         "print(%s_alias(2)); print(%s(3));" % (h, h)]
+    if local:
+        L = ["{"] + ["    " + l for l in L] + ["}"]
+    else:
+        g.declare(f, "clfn:0", const=True)
+        g.declare(h, "clfn:1", const=True)
+        g.declare(f + "_runs", "num", const=True)
+        g.declare(h + "_alias", "clfn:1", const=True)
+    return L
+
+
+def s_midshadow(g, depth):
+    """three nesting levels: the middle function lets an inner function capture an outer variable, then declares its own
+    variable of the same name; inner functions written after that declaration must see the middle one's"""
+    r = g.r
+    o = g.fresh("ms")
+    nm = r.choice(["x", "name", "v"])
+    L = ["fn %s() {" % o, "    var %s = \"outer\";" % nm, "    fn mid() {", "        var first = || %s;" % nm,
+         "        var writes = |z| { %s = z; return %s; };" % (nm, nm), "        var %s = \"mid\";" % nm,
+         "        var second = || %s;" % nm, "        var third = |z| { %s = z; return %s; };" % (nm, nm),
+         "        return [first, writes, second, third, || %s];" % nm, "    }", "    var fs = mid();",
+         "    print([fs[0](), fs[2](), fs[4]()]);", "    print(fs[1](\"outer2\"));", "    print(fs[3](\"mid2\"));",
+         "    print([fs[0](), fs[2](), fs[4](), %s]);" % nm, "}", "%s();" % o]
+    g.declare(o, "clfn:0", const=True)
+    return L
